@@ -10,6 +10,9 @@
 package main
 
 import (
+	"fmt"
+	"os"
+
 	"gitlab.com/gomidi/midi/v2/internal/verifh/engine"
 )
 
@@ -27,6 +30,15 @@ func main() {
 	}
 	ctx.Assume("protocol-respecting histories only: Listen when the in port is open and no listener is active, in.Close only without active listener, stop functions of the current listener only (DESIGN.md appendix C)")
 	ctx.Jobs("lifecycle", 1, func(int) { lifecycle() })
+	scs := scenarios()
+	bound := -1
+	if !ctx.Thorough() {
+		bound = 2
+	}
+	if os.Getenv("VERIF_SCHED_BOUND") != "" {
+		fmt.Sscanf(os.Getenv("VERIF_SCHED_BOUND"), "%d", &bound)
+	}
+	ctx.Jobs("sched", len(scs), func(j int) { exploreScenario(scs[j], bound, 3_000_000, nil) })
 	ctx.Set("traces_validated_against_impl", ctx.GetInt("transitions"))
 	ctx.Sample(map[string]interface{}{"history": []string{"out.Open", "midi.ListenTo", "Send(note)", "stop()", "Send(note)", "midi.ListenTo", "Send(note)"}, "expect": "delivered to listener 1, dropped, delivered to listener 2"})
 	ctx.NontrivialN(ctx.GetInt("lifecycle_states"))
